@@ -32,6 +32,9 @@ func (dc *dataChunk) GoString() string {
 }
 
 func (dc *dataChunk) Clear() error {
+	if utils.VerifOn {
+		utils.Verif("g.clear", dc.path, dc.chunkid, len(dc.wbuf))
+	}
 	dc.wbuf = nil
 	dc.size = 0
 	dc.rewriting = false
@@ -66,6 +69,9 @@ func (dc *dataChunk) AppendRecordGC(wrec *WriteRecord) (offset uint32, err error
 	}
 	dc.Unlock()
 
+	if utils.VerifOn {
+		utils.Verif("fs.pre", "data.gcappend", dc.path)
+	}
 	_, err = dc.gcWriter.append(wrec)
 	if err != nil {
 		logger.Fatalf("fail to append, stop! err: %v", err)
@@ -74,6 +80,10 @@ func (dc *dataChunk) AppendRecordGC(wrec *WriteRecord) (offset uint32, err error
 	if err = dc.gcWriter.wbuf.Flush(); err != nil {
 		logger.Fatalf("write data fail, stop! err: %v", err)
 		return 0, err
+	}
+	if utils.VerifOn {
+		utils.Verif("fs.post", "data.gcappend", dc.path)
+		utils.Verif("g.copy", dc.path, dc.chunkid, offset, size, string(wrec.rec.Key), wrec.rec.Payload.Ver)
 	}
 	return
 }
@@ -88,6 +98,9 @@ func (dc *dataChunk) getDiskFileSize() uint32 {
 func (dc *dataChunk) flush(w *DataStreamWriter, gc bool) (flushed uint32, err error) {
 	dc.Lock()
 	n := len(dc.wbuf)
+	if utils.VerifOn {
+		utils.Verif("f.snap", dc.path, dc.chunkid, n, gc)
+	}
 	dc.Unlock()
 	for i := 0; i < n; i++ {
 		dc.Lock() // because append may change the slice
@@ -104,14 +117,24 @@ func (dc *dataChunk) flush(w *DataStreamWriter, gc bool) (flushed uint32, err er
 			// NOTE: not freed yet, make it a little diff with AllocRL, which may provide more insight
 		}
 	}
+	if utils.VerifOn {
+		utils.Verif("fs.pre", "data.flush", dc.path)
+	}
 	if err = w.wbuf.Flush(); err != nil {
 		logger.Fatalf("write data fail, stop! err: %v", err)
 		return 0, err
+	}
+	if utils.VerifOn {
+		utils.Verif("fs.post", "data.flush", dc.path)
+		utils.Verif("f.written", dc.path, dc.chunkid, n, flushed)
 	}
 
 	dc.Lock()
 	tofree := dc.wbuf[:n]
 	dc.wbuf = dc.wbuf[n:]
+	if utils.VerifOn {
+		utils.Verif("f.detach", dc.path, dc.chunkid, n)
+	}
 	dc.Unlock()
 	for _, wrec := range tofree {
 		wrec.rec.Payload.Free()
@@ -126,6 +149,9 @@ func (dc *dataChunk) GetRecordByOffsetInBuffer(offset uint32) (res *Record, err 
 	wbuf := dc.wbuf
 	n := len(wbuf)
 	if n == 0 || offset < wbuf[0].pos.Offset || offset >= dc.writingHead {
+		if utils.VerifOn {
+			utils.Verif("r.buf", dc.path, dc.chunkid, offset, false)
+		}
 		return
 	}
 
@@ -139,6 +165,9 @@ func (dc *dataChunk) GetRecordByOffsetInBuffer(offset uint32) (res *Record, err 
 	if wrec.pos.Offset == offset {
 		res = wrec.rec.Copy()
 		cmem.DBRL.GetData.AddSizeAndCount(res.Payload.CArray.Cap)
+		if utils.VerifOn {
+			utils.Verif("r.buf", dc.path, dc.chunkid, offset, true)
+		}
 		return
 	} else {
 		err = fmt.Errorf("rec should in buffer, but not, pos = %#v", Position{dc.chunkid, offset})
@@ -179,6 +208,10 @@ func (dc *dataChunk) Truncate(size uint32) error {
 	if size == 0 {
 		return utils.Remove(path)
 	}
+	if utils.VerifOn {
+		utils.Verif("fs.pre", "truncate", path)
+		defer utils.Verif("fs.post", "truncate", path)
+	}
 	return os.Truncate(path, int64(size))
 }
 
@@ -190,6 +223,9 @@ func (dc *dataChunk) beginGCWriting(srcChunk int) (err error) {
 		logger.Infof("rewrite %s", dc.path)
 	} else {
 		dc.writingHead = dc.size
+	}
+	if utils.VerifOn {
+		utils.Verif("g.beginwrite", dc.path, dc.chunkid, srcChunk, dc.rewriting, dc.writingHead)
 	}
 	dc.gcWriter, err = GetStreamWriter(dc.path, !dc.rewriting)
 	if err != nil {
@@ -210,6 +246,9 @@ func (dc *dataChunk) endGCWriting() (err error) {
 		dc.size = dc.writingHead
 	}
 	dc.rewriting = false
+	if utils.VerifOn {
+		utils.Verif("g.endwrite", dc.path, dc.chunkid, dc.size)
+	}
 	return
 }
 
